@@ -45,9 +45,9 @@ Drop(bn, ba, n) == [bn |-> [bn EXCEPT ![n] = NoMap],
                     ba |-> [a \in Addrs |-> IF ba[a] = n THEN NoAddr ELSE ba[a]]]
 
 \* an ADDRMAP event: name n now maps to address a until absolute time exp (or Never);
-\* a = "<error>" means the lookup failed.  Zero-delay timers run before the step ends
-\* (the harness lets the clock settle), so a mapping that is already expired is added and
-\* expired within the step.
+\* a = "<error>" means the lookup failed.  A mapping that has already expired when it arrives is
+\* held until the next reactor turn (a zero-delay timer: Settle, or any Advance) - unless a later
+\* event for the same name arrives first and replaces it, timer included.
 Event(n, a, exp) ==
   /\ n \in Names /\ (a = "<error>" \/ a \in AddrsOf[n])
   /\ IF a = "<error>"
@@ -64,11 +64,9 @@ Event(n, a, exp) ==
               ba1   == [x \in Addrs |-> IF x = a THEN n ELSE IF byAddr[x] = n THEN NoAddr ELSE byAddr[x]]
               bn1   == [byName EXCEPT ![n] = [addr |-> a, exp |-> exp]]
           IN /\ latest' = [latest EXCEPT ![n] = IF past THEN NoMap ELSE [addr |-> a, exp |-> exp]]
-             /\ IF past
-                THEN LET d == Drop(bn1, ba1, n) IN byName' = d.bn /\ byAddr' = d.ba
-                ELSE byName' = bn1 /\ byAddr' = ba1
-             /\ log' = (IF isnew THEN << <<"added", n>> >> ELSE <<>>) \o (IF past THEN << <<"expired", n>> >> ELSE <<>>)
-             /\ bal' = [bal EXCEPT ![n] = @ + (IF isnew THEN 1 ELSE 0) - (IF past THEN 1 ELSE 0)]
+             /\ byName' = bn1 /\ byAddr' = ba1
+             /\ log' = (IF isnew THEN << <<"added", n>> >> ELSE <<>>)
+             /\ bal' = [bal EXCEPT ![n] = @ + (IF isnew THEN 1 ELSE 0)]
   /\ UNCHANGED now
 
 \* the clock advances by dt; timers due by then fire in order of their due time
@@ -77,8 +75,9 @@ RECURSIVE FireOrder(_)
 FireOrder(S) == IF S = {} THEN <<>>
                 ELSE LET n == CHOOSE x \in S : \A y \in S : byName[x].exp <= byName[y].exp
                      IN <<n>> \o FireOrder(S \ {n})
+\* dt = 0 is a reactor turn without passage of time (Settle): only zero-delay timers fire
 Advance(dt) ==
-  /\ dt >= 1
+  /\ dt >= 0 /\ (dt = 0 => Due(now) # {})
   /\ now' = now + dt
   /\ LET due == Due(now + dt) IN
        /\ byName' = [n \in Names |-> IF n \in due THEN NoMap ELSE byName[n]]
@@ -91,15 +90,17 @@ Advance(dt) ==
 Next ==
   \/ \E n \in Names, a \in Addrs \cup {"<error>"}, k \in Offsets \cup {Never} :
         Event(n, a, IF k = Never THEN Never ELSE now + k)
-  \/ \E dt \in 1..3 : Advance(dt) /\ now + dt <= MaxNow
+  \/ \E dt \in 0..3 : Advance(dt) /\ now + dt <= MaxNow
 
 Spec == Init /\ [][Next]_vars
 
 ----------------------------------------------------------------------------
 \* C20: looking a name up succeeds exactly when Tor's most recent mapping has not expired
+\* (an entry that was overdue on arrival is waived until the reactor has turned)
 Live(n) == latest[n].addr # NoAddr /\ (latest[n].exp = Never \/ latest[n].exp > now)
-FindIffLive == \A n \in Names : Mapped(n) <=> Live(n)
-FindsLatestAddr == \A n \in Names : Mapped(n) => byName[n].addr = latest[n].addr /\ byName[n].exp = latest[n].exp
+Overdue(n) == Mapped(n) /\ byName[n].exp # Never /\ byName[n].exp <= now
+FindIffLive == \A n \in Names : ~Overdue(n) => (Mapped(n) <=> Live(n))
+FindsLatestAddr == \A n \in Names : (Mapped(n) /\ ~Overdue(n)) => byName[n].addr = latest[n].addr /\ byName[n].exp = latest[n].exp
 \* under the address exactly while the mapping is live, and only the current address
 AddrKeys == \A a \in Addrs : byAddr[a] # NoAddr <=> (\E n \in Names : Mapped(n) /\ byName[n].addr = a /\ byAddr[a] = n)
 \* one "added" per new name, one "expired" per expiry: a name is live iff added once more than expired
